@@ -104,8 +104,8 @@ PROPS['C20'] = A(level='exploration', engine='enumerate', harnesses=[A(src='harn
 def SCHED(src, **kw):
     return [A(src=src, san='asan', sched=True, **kw), A(src=src, san='tsan', sched=True, **kw)]
 PROPS['C12'] = A(level='model_checking', engine='sched', harnesses=SCHED('harness/c12_spin.cpp') + [A(src='harness/c12_guards.cpp', san='asan')], budget=A(quick=150, thorough=1500),
-    bounds=A(quick='ticket_spinlock and simple_spinlock, every __atomic builtin and spin hint a scheduling point: 2 threads x 1 round: ALL interleavings; 2 threads x 2 rounds: preemption bound 3; 3 threads x 1 round: bound 2; each explored twice (ASan+vector clocks, and ThreadSanitizer). Guards: unique_lock/shared_lock/QS lock_guard operation histories to fixpoint',
-             thorough='2x2 all interleavings, 3x1 bound 3, 4x1 and 3x2 bound 2'),
+    bounds=A(quick='ticket_spinlock and simple_spinlock, every __atomic builtin and spin hint a scheduling point: 2 threads x 1 round: ALL interleavings; 2 threads x 2 rounds: ALL interleavings (simple) / preemption bound 5 (ticket); 3 threads x 1 round: bound 2; every __atomic builtin the header could use (load, store, exchange, fetch_*, compare_exchange, test_and_set, clear) is hooked; each explored twice (ASan+vector clocks, and ThreadSanitizer). Guards: unique_lock/shared_lock/QS lock_guard operation histories to fixpoint',
+             thorough='ticket 2x2 bound 7, 3x1 bound 3, 4x1 and 3x2 bound 2'),
     technique='stateless model checking: exhaustive preemption-bounded enumeration of thread schedules of the real implementation under a serialising scheduler (CHESS style), vector-clock happens-before oracle, ThreadSanitizer over the same schedules; explicit-state BFS for the guards',
     assumptions=TRUST + ['interleaving (sequentially consistent) semantics; memory-order defects are caught as missing happens-before edges (vector clocks, TSan), not by enumerating weak-memory executions'])
 
